@@ -25,7 +25,7 @@ func init() {
 			"resources are closed / the directory removed only under that mutex and only on the branch where the count read under the lock is zero; acquire refuses a segment flagged for deletion before reopening it; " +
 			"the segment's index pointer is accessed under the mutex (or through the hold-a-reference accessors); every segment reference obtained by a caller (SelectSegments, CreateSegmentIfNotExist, segments, incRef) is released or handed to an owner on every exit, and loops that pin several segments unwind on a mid-loop failure; DecRef runs the deferred delete only on the 1→0 transition of a flagged segment; a failed (re)open clears segment.index — the \"resources open\" bit — on every failing exit.",
 		NotDecided: "that these invariants compose to safety under every interleaving (a model-checking claim), idle-timer behaviour, liveness of deferred deletes.",
-		Technique:  "SSA value-world pruning on atomic loads/CAS operands; must-lockset; acquire/release pairing with collection ownership",
+		Technique:  "SSA value-world pruning on atomic loads/CAS operands; must-lockset; acquire/release pairing with collection ownership; must-clear on every failing exit (open bit)",
 		Run:        runC14,
 	})
 }
